@@ -19,9 +19,21 @@ import (
 
 var (
 	repoRoot  = envOr("REPO_ROOT", "/repo")
-	verifRoot = envOr("VERIF_ROOT", "/verif")
+	verifRoot = envOr("VERIF_ROOT", defaultVerifRoot())
 	verbose   = os.Getenv("SYMGO_VERBOSE") != ""
 )
+
+// defaultVerifRoot: the directory that holds bin/symgo (so a snapshot of /verif uses its own
+// harnesses, checks and evidence), else /verif.
+func defaultVerifRoot() string {
+	if exe, err := os.Executable(); err == nil {
+		root := filepath.Dir(filepath.Dir(exe))
+		if st, err := os.Stat(filepath.Join(root, "checks")); err == nil && st.IsDir() {
+			return root
+		}
+	}
+	return "/verif"
+}
 
 func envOr(k, d string) string {
 	if v := os.Getenv(k); v != "" {
